@@ -5,6 +5,7 @@ import (
 	"os"
 	"go/types"
 	"sort"
+	"strings"
 
 	"golang.org/x/tools/go/ssa"
 )
@@ -215,6 +216,14 @@ func Guarded(p *Prog, fn *ssa.Function, guards []*Guard, isAction func(ssa.Instr
 	}
 	if os.Getenv("ONTOCHECK_DEBUG") != "" {
 		fmt.Fprintf(os.Stderr, "DEBUG Guarded %s: guards=%v actions=%d\n", FuncName(fn), v.GuardPos, len(actions))
+		if d := os.Getenv("ONTOCHECK_DUMP"); d != "" && strings.Contains(FuncName(fn), d) {
+			fn.WriteTo(os.Stderr)
+			for _, as := range assumptions(insts) {
+				for k, a := range as {
+					fmt.Fprintf(os.Stderr, "DEBUG assume %s = %v\n", k.Name(), a)
+				}
+			}
+		}
 	}
 	if len(actions) == 0 {
 		return v
